@@ -56,10 +56,103 @@ def finding_signature(prop, obl, kind):
     return {'property': prop, 'obligation': obl.name, 'kind': kind, 'info': {k: (str(v) if not isinstance(v, (bool, int, type(None))) else v) for k, v in info.items()}}
 
 
+def run_history_job(job):
+    """bounded model checking along one history template from the empty book: every accepted history, ledger obligations, native replay"""
+    from . import world as W, harness as H, steps as ST, props as P
+    prop_ids, spec, opts = job
+    eng, tier = _W['eng'], _W['tier']
+    t0 = time.time()
+    label = 'history: ' + spec['name']
+    res = {'spec': label, 'kind': 'History', 'paths': collections.Counter(), 'obligations': collections.Counter(), 'violations': [], 'unknown': [],
+           'witness': collections.Counter(), 'witness_mismatch': [], 'error': None, 'samples': [], 'ok_reached': 0}
+    try:
+        bounds = W.Bounds(tier)
+        sc, _ = ST.build_history(eng, bounds, spec)
+        c0 = eng.nchecks
+        dec = H.Decider(timeout_ms=opts.get('timeout_ms', 20000), seed=_W['seed'], cross_check=opts.get('cross_check', 0))
+        trails = list(ST.run_history(sc, spec))
+        res['explore_s'] = time.time() - t0
+        res['pruning_checks'] = eng.nchecks - c0
+        budget = opts.get('witness_per_spec', 12)
+
+        def replay(trail, model):
+            req0, funds0, p0 = trail[0]
+            step0 = {'kind': 'execute', 'sender': req0['sender'], 'funds': funds0, 'msg': req0['msg']}
+            scen, c = H.build_replay(sc, model, step0, eng)
+            for req, funds, p in trail[1:]:
+                scen['steps'].append({'kind': 'execute', 'sender': c.term_string(req['sender'], 'sender'), 'funds': [c.json(f, eng.ti, eng.serde_rename) for f in funds],
+                                      'msg': c.json(req['msg'], eng.ti, eng.serde_rename)})
+            nat = H.run_replay(scen)['steps']
+            diffs = []
+            for k, ((req, funds, p), n) in enumerate(zip(trail, nat)):
+                post = H.storage_json(p.world, c, eng) if k == len(trail) - 1 else None
+                diffs += ['step %d: %s' % (k, d) for d in H.compare_replay(H.predicted_result(p, c, eng), post, n)]
+            return scen, nat, diffs
+        for ti_, trail in enumerate(trails):
+            res['paths']['accepted_history'] += 1
+            pc = list(trail[-1][2].pc)
+            env = H.env_assumptions(sc)
+            nice = H.nice_constraints(sc)
+            ties = []
+            for _, _, p in trail:
+                ties += H.no_tie_constraints(p.world)
+            for ob in P.c01_history(sc, trail):
+                name = 'C01:' + ob.name
+                r, m = dec.check(pc + env + ob.neg, name)
+                res['obligations'][(name, r)] += 1
+                if len(res['samples']) < 2 and r == 'unsat':
+                    res['samples'].append({'obligation': name, 'history': [q['kind'] for q, _, _ in trail], 'spec': label, 'verdict': 'unsat'})
+                if r == 'unknown':
+                    res['unknown'].append({'obligation': name, 'spec': label, 'path': 'history'})
+                if r == 'sat':
+                    sig = {'property': 'C01', 'obligation': ob.name, 'kind': 'History', 'info': {'template': spec['name']}}
+                    if any(v['signature'] == sig for v in res['violations']):
+                        continue
+                    r2, m2 = dec.check(pc + env + ob.neg + nice + ties, name + ':nice')
+                    if r2 == 'sat':
+                        m = m2
+                    v = {'signature': sig, 'spec': label, 'path': 'ok', 'detail': None}
+                    try:
+                        scen, nat, diffs = replay(trail, m)
+                        v.update(scenario=scen, native=nat, predicted=None, reproduced=not diffs, diffs=diffs)
+                    except Exception as e:
+                        v.update(reproduced=False, diffs=['replay failed: %r' % (e,)], scenario=None)
+                    res['violations'].append(v)
+            if ti_ < budget:
+                r, m = dec.check(pc + env + nice + ties, 'witness')
+                if r == 'sat':
+                    try:
+                        scen, nat, diffs = replay(trail, m)
+                    except Exception as e:
+                        scen, diffs = None, ['replay failed: %r' % (e,)]
+                    if diffs:
+                        res['witness']['mismatch'] += 1
+                        res['witness_mismatch'].append({'spec': label, 'path': 'history', 'detail': None, 'diffs': diffs[:4], 'scenario': scen})
+                    else:
+                        res['witness']['validated'] += 1
+                        res['ok_reached'] += 1
+                elif r == 'unsat':
+                    res['witness']['infeasible_exact'] += 1
+                else:
+                    res['witness']['unknown'] += 1
+        res['decider'] = {'queries': dec.n, 'solver_s': dec.t, 'stats': dec.stats, 'cross': dec.cross, 'cross_disagreements': dec.cross_disagreements[:5], 'retries': getattr(dec, 'retries', 0)}
+    except Exception as e:
+        res['error'] = '%s: %s\n%s' % (type(e).__name__, e, traceback.format_exc()[-1500:])
+    res['wall_s'] = time.time() - t0
+    res['functions'] = sorted(eng.functions_entered)
+    res['models_used'] = sorted(eng.models_used)
+    res['paths'] = dict(res['paths'])
+    res['obligations'] = {'%s|%s' % k: v for k, v in res['obligations'].items()}
+    res['witness'] = dict(res['witness'])
+    return res
+
+
 def run_spec(job):
     """explore one spec and decide the obligations of the requested properties on every path"""
     from . import world as W, harness as H, steps as ST, props as P
     prop_ids, spec, opts = job
+    if spec.get('kind') == 'History':
+        return run_history_job(job)
     eng = _W['eng']
     tier = _W['tier']
     t0 = time.time()
@@ -280,7 +373,7 @@ def run_check(pid, tier, seed, specs, opts=None, jobs=None, level_note=None, ext
     results = []
     joblist = [([pid], s, opts) for s in specs]
     # longest first
-    joblist.sort(key=lambda j: 0 if j[1]['kind'] == 'ExecuteMatch' else 1)
+    joblist.sort(key=lambda j: 0 if j[1]['kind'] in ('ExecuteMatch', 'History') else 1)
     with multiprocessing.get_context('fork').Pool(jobs, initializer=_init_worker, initargs=(mirtext, tier, seed)) as pool:
         for r in pool.imap_unordered(run_spec, joblist):
             results.append(r)
